@@ -7,6 +7,7 @@ def text_edit(old, new):
         return src.replace(old, new, 1) if old in src else None
     return edit
 MUTANTS = [
+    Mutant('print_add_drops_multi_rv', 'src/pharmpy/model/external/nonmem/records/code_record.py', text_edit("                            terms_ruv.append(arg)\n                            continue\n                    terms_iiv_iov.append(arg)", "                            terms_ruv.append(arg)\n                        else:\n                            terms_iiv_iov.append(arg)"), 'B14', 'multi-rv term in no list'),
     Mutant('mod_one_arg', C, text_edit("        return f'MOD({self.doprint(expr.args[0])},{self.doprint(expr.args[1])})'", "        return f'MOD({self.doprint(expr.args[0])})'"), 'B8', 'second argument of MOD dropped'),
     Mutant('gamln_as_loggamma', C, text_edit("        return f'GAMLN({self.doprint(expr.args[0])})'", "        return f'LOGGAMMA({self.doprint(expr.args[0])})'"), 'B8', 'not an NM-TRAN function'),
     Mutant('reciprocal_str', C, text_edit('            base = self.parenthesize(expr.base, sympy_printing.str.precedence(expr))\n            return f"1/{base}"', '            return f"1/({expr.base})"'), 'B9', 'base formatted by the default printer'),
